@@ -72,7 +72,7 @@ impl St<'_> {
 }
 
 fn run(case: &Case, cx: &mut Cx) -> CaseResult {
-    let mut w = World::new(&cx.scratch, &case.hist.initial);
+    let mut w = World::for_history(&cx.scratch, &case.hist);
     std::fs::create_dir_all(cx.dir("r")).unwrap();
     for op in &case.hist.ops {
         let _ = w.apply(op);
